@@ -153,7 +153,7 @@ def main():
         ],
         checks=checks,
         not_applicable=na,
-        notes="All checks are run as ./check <ID> --tier quick|thorough from /verif; exit 0 = held on every explored path, 1 = replay-confirmed VIOLATION, 2 = inconclusive / harness error (never a verdict).",
+        notes="All checks are run as ./check <ID> --tier quick|thorough from /verif; exit 0 = held on every explored path (a KNOWN-FINDING line is printed for each signature listed with status 'known' in /verif/known_findings.json — C10 and C15, sub-millisecond effects, DESIGN.md §8a — and the exit code stays 0), 1 = replay-confirmed VIOLATION, 2 = inconclusive / harness error (never a verdict).",
     )
     with open(os.path.join(V, "MANIFEST.json"), "w") as f:
         json.dump(m, f, indent=1)
